@@ -80,7 +80,15 @@ func c13Stream(toks []string) string {
 		ret, ok := c13Try(func() string {
 			switch op.kind {
 			case 'w':
-				if err := s.Write(op.data); err != nil {
+				// the caller owns its slice: hand over a scratch copy and scribble over it after the
+				// call (io.Writer: "Write must not retain p"), so a stream that keeps a reference
+				// to the caller's buffer shows up as changed unread bytes
+				scratch := append([]byte(nil), op.data...)
+				err := s.Write(scratch)
+				for i := range scratch {
+					scratch[i] = 0xEE
+				}
+				if err != nil {
 					return "W!" + err.Error()
 				}
 				return "W"
@@ -138,7 +146,11 @@ func c13Buffer(toks []string) string {
 		ret, ok := c13Try(func() string {
 			switch op.kind {
 			case 'w':
-				n, err := b.Write(op.data)
+				scratch := append([]byte(nil), op.data...)
+				n, err := b.Write(scratch)
+				for i := range scratch {
+					scratch[i] = 0xEE
+				}
 				if err != nil {
 					return fmt.Sprintf("W%d!%v", n, err)
 				}
